@@ -103,7 +103,7 @@ def boundary_preserving(rng, kind: str, data: bytes):
     else:
         return None
     while True:
-        val = rng.randrange(256)
+        val = rng.choice(FRAME_VALUES) if rng.random() < 0.4 else rng.randrange(256)
         if val == data[pos]:
             continue
         if kind == "nmea" and val == 0x0A:
@@ -111,6 +111,8 @@ def boundary_preserving(rng, kind: str, data: bytes):
         break
     return {"k": "sub", "pos": pos, "val": val}
 
+
+FRAME_VALUES = bytes.fromhex("b562244750d3000102030a0d2aff")  # values that mean something to a framer
 
 INS_BYTES = ("00", "ff", "b5", "62", "24", "d3", "0a", "b562", "d300", "2447")
 
@@ -122,7 +124,7 @@ def any_fault(rng, data: bytes, allow_reseal=True):
     if n == 0:
         k = "ins"
     if k == "sub":
-        return {"k": "sub", "pos": rng.randrange(n), "val": rng.randrange(256)}
+        return {"k": "sub", "pos": rng.randrange(n), "val": rng.choice(FRAME_VALUES) if rng.random() < 0.35 else rng.randrange(256)}
     if k == "flip":
         return {"k": "flip", "pos": rng.randrange(n), "bit": rng.randrange(8)}
     if k == "ins":
